@@ -37,8 +37,7 @@ HOME_ONLY = {"c16": {"C16.R7"}, "c12": set(), "c10": set()}
 def reached_groups(ctx, entries: List[str]) -> Dict[str, List[str]]:
     key = ("deps.closure", tuple(entries))
     if key not in ctx.cache:
-        clo = O.closure(ctx, [e for e in entries if e in ctx.M.funcs],
-                        exclude=lambda q: CTL in q or ".playField" in q or "parse_replay" in q)
+        clo = _closure(ctx, entries)
         out = {}
         for g, (_, prefixes) in GROUPS.items():
             hit = sorted(q for q in clo if any(q.startswith(p) for p in prefixes))
@@ -68,8 +67,22 @@ def _enclosing(ctx, file: str, line: int):
 def _closure(ctx, entries):
     key = ("deps.closure.set", tuple(entries))
     if key not in ctx.cache:
-        ctx.cache[key] = set(O.closure(ctx, [e for e in entries if e in ctx.M.funcs],
-                                       exclude=lambda q: CTL in q or ".playField" in q or "parse_replay" in q))
+        M = ctx.M
+        clo = set(O.closure(ctx, [e for e in entries if e in M.funcs],
+                            exclude=lambda q: CTL in q or ".playField" in q or "parse_replay" in q))
+        # implicit calls: operators, iteration, len(), attribute stores on generated properties.  A class one of whose
+        # methods is reached has its dunder methods reached too; a stacker that is constructed is used through all of its
+        # accessors (that is its only purpose), so its whole class is reached.
+        classes = {M.funcs[q].cls for q in clo if q in M.funcs and M.funcs[q].cls}
+        for c in list(classes):
+            for k in M.mro(c):
+                if k not in M.classes:
+                    continue
+                whole = "Stacker" in k
+                for q, f in M.funcs.items():
+                    if f.cls == k and (whole or (f.name.startswith("__") and f.name.endswith("__"))):
+                        clo.add(q)
+        ctx.cache[key] = clo
     return ctx.cache[key]
 
 
